@@ -81,7 +81,7 @@ def gen_case(run_seed: int, tier: str, index: int = 0) -> dict:
         n_functions=r.choice([0, 1, 2]), depth=r.choice([0, 1, 2]), typed=r.random() < 0.8, p_if=r.choice([0.1, 0.3]), p_dup=r.choice([0.2, 0.5]),
         p_const=r.choice([0.1, 0.3]), p_unused=r.choice([0.1, 0.4]), metadata=r.random() < 0.5, big_init=r.random() < 0.4, dup_inits=r.random() < 0.4,
         unused_function=r.random() < 0.3, init_as_input=r.choice([0.0, 0.3, 1.0]), name_noise=r.choice([0.0, 0.0, 0.3]), unsorted=r.random() < 0.25,
-        lazy_failing_init=r.random() < 0.15,
+        lazy_failing_init=r.random() < 0.15, annot_noise=r.choice([0.0, 0.0, 0.3, 0.6]),
     )  # fmt: skip
     names = list(PASSES)
     if params["name_noise"]:
@@ -398,7 +398,7 @@ def shrink_candidates(case: dict, violation: dict):
         c = copy.deepcopy(case)
         c["schedule"][-1]["mode"] = "single"
         yield c
-    for key, vals in (("n_nodes", [1, 2, 4]), ("n_functions", [0]), ("depth", [0, 1]), ("n_inits", [0, 1, 2]), ("n_inputs", [0, 1]), ("n_outputs", [1]), ("metadata", [False]), ("unsorted", [False]), ("name_noise", [0.0]), ("big_init", [False]), ("dup_inits", [False]), ("lazy_failing_init", [False]), ("unused_function", [False]), ("typed", [False])):
+    for key, vals in (("n_nodes", [1, 2, 4]), ("n_functions", [0]), ("depth", [0, 1]), ("n_inits", [0, 1, 2]), ("n_inputs", [0, 1]), ("n_outputs", [1]), ("metadata", [False]), ("unsorted", [False]), ("name_noise", [0.0]), ("big_init", [False]), ("dup_inits", [False]), ("lazy_failing_init", [False]), ("unused_function", [False]), ("typed", [False]), ("annot_noise", [0.0])):
         for val in vals:
             cur = case["params"].get(key)
             if cur != val and (isinstance(val, bool) or val < cur):
